@@ -402,7 +402,7 @@ func (t *runTracer) probe(point string, g *hermes.GlobalVarsMain, extra ...inter
 		e["overwrite"] = g.MZ != t.mzTop
 		irrigated := g.NBR != t.nbrTop
 		e["irrigated"] = irrigated
-		e["effirr"] = fx("EffectiveIRRIG", g.EffectiveIRRIG, 9)
+		e["effirr"] = fx("EffectiveIRRIG", g.EffectiveIRRIG, 6)
 		if irrigated && g.NBR >= 2 {
 			v := g.BRKZ[g.NBR-2] * g.BREG[g.NBR-2] * 0.01
 			if v < 0 {
@@ -414,7 +414,7 @@ func (t *runTracer) probe(point string, g *hermes.GlobalVarsMain, extra ...inter
 			e["irrN"] = limb{}
 			e["irrmm"] = 0
 		}
-		e["rain"] = fx("REGEN", g.REGEN[g.TAG.Index], 9)
+		e["rain"] = fx("REGEN", g.REGEN[g.TAG.Index], 6)
 		e["verdunst"] = lim("VERDUNST", g.VERDUNST, eW)
 		nstate(e, g)
 		t.verdTop = g.VERDUNST
